@@ -29,13 +29,15 @@ namespace alarm {
 
 void WorkdayCalendar::updateSpecialDays(const std::map<int, bool> &special_days) {
   special_days_ = special_days;
-  for (auto alarm : watch_alarms_)
+  auto alarms = watch_alarms_;  //! refresh() 找不到下一个时间点时会退订，不能边遍历边改
+  for (auto alarm : alarms)
     alarm->refresh();
 }
 
 void WorkdayCalendar::updateWeekMask(uint8_t week_mask) {
   week_mask_ = week_mask;
-  for (auto alarm : watch_alarms_)
+  auto alarms = watch_alarms_;  //! refresh() 找不到下一个时间点时会退订，不能边遍历边改
+  for (auto alarm : alarms)
     alarm->refresh();
 }
 
